@@ -1,8 +1,81 @@
-import LW.Model.Fock
+/-
+  C03 — Simulator amplitudes are the bosonic Fock-space amplitudes of the circuit.
+
+  Model: LW.Model.Fock.  `ampNum U s t` is the numerator of the amplitude ⟨t|Φ(U)|s⟩ and
+  `ampNormSq s t = ∏ s! ∏ t!` the square of its denominator (the model never takes square roots).
+-/
+import LW.Proofs.C03
+import LW.Proofs.FockIso
 
 namespace LW.C03
 
-/-- interim (replaced by the real theorems): the one-mode Fock basis is the single state `[n]` -/
-theorem fockBasis_one (n : Nat) : fockBasis 1 n = [[n]] := rfl
+open Matrix
+
+variable {K : Type}
+
+/-- `fock_basis(N, n)` enumerates exactly the occupations of `N ≥ 1` modes with `n` photons … -/
+theorem fockBasis_complete (N n : Nat) (hN : 0 < N) (s : FState) :
+    s ∈ fockBasis N n ↔ s.length = N ∧ photons s = n :=
+  Proofs.C03.fockBasis_complete N n hN s
+
+/-- … each exactly once -/
+theorem fockBasis_nodup (N n : Nat) : (fockBasis N n).Nodup := Proofs.C03.fockBasis_nodup N n
+
+/-- the model's recursive permanent is Mathlib's permanent of the row/column-selected matrix -/
+theorem permRC_eq_permanent [CommRing K] (U : M K) (k : Nat) (rows cols : Fin k → Nat) :
+    permRC U (List.ofFn rows) (List.ofFn cols) =
+      Matrix.permanent (Matrix.of fun a b => U.get (rows a) (cols b)) :=
+  Proofs.C03.permRC_eq_permanent U k rows cols
+
+/-- the index list of a state repeats each mode by its occupation: it has one entry per photon
+and contains mode `m` exactly `s[m]` times -/
+theorem partitionIdx_spec (s : FState) :
+    (partitionIdx s).length = photons s ∧ ∀ m, (partitionIdx s).count m = s.getD m 0 :=
+  Proofs.C03.partitionIdx_spec s
+
+/-- every amplitude the simulator returns is the permanent of the photon-indexed sub-matrix of
+`U_full` with herald photons inserted on the heralded input/output modes and vacuum on the loss
+modes, together with the product of all occupation factorials -/
+theorem simulate_eq_formula [CommRing K] (i : K) (c : Circ K) (ins : List (List Occ))
+    (outs : Option (List (List Occ))) (r : SimResult K) (h : simulate i c ins outs = .ok r) :
+    let U := c.Ufull i
+    let z := List.replicate (U.n - c.n) 0
+    r.amps = r.inputs.map fun s => r.outputs.map fun t =>
+      (ampNum U (addHeralds s c.inHer ++ z) (addHeralds t c.outHer ++ z),
+       ampNormSq (addHeralds s c.inHer ++ z) (addHeralds t c.outHer ++ z)) :=
+  Proofs.C03.simulate_eq_formula i c ins outs r h
+
+/-- input validation: a state is accepted iff it has the right length and every entry is a
+non-negative integer; otherwise the error class is decided by the first offence in the order
+length, then per entry type before sign -/
+theorem validateState_ok_iff (im : Nat) (s : List Occ) (t : FState) :
+    validateState im s = .ok t ↔ s.length = im ∧ s = t.map fun k => Occ.int (k : Int) :=
+  Proofs.C03.validateState_ok_iff im s t
+
+theorem validateState_wrong_length (im : Nat) (s : List Occ) (h : s.length ≠ im) :
+    validateState im s = .error .modeMismatch :=
+  Proofs.C03.validateState_wrong_length im s h
+
+/-- a simulation is refused (never computed) when an input is malformed, and when photon numbers
+of inputs/outputs differ -/
+theorem simulate_rejects [CommRing K] (i : K) (c : Circ K) (ins : List (List Occ))
+    (outs : Option (List (List Occ)))
+    (h : (∃ s ∈ ins, ∀ t, validateState c.inputModes s ≠ .ok t) ∨
+         (∃ os, outs = some os ∧ ∃ s ∈ os, ∀ t, validateState c.inputModes s ≠ .ok t)) :
+    ∃ e, simulate i c ins outs = .error e :=
+  Proofs.C03.simulate_rejects i c ins outs h
+
+theorem simulate_rejects_photon_mismatch [CommRing K] (i : K) (c : Circ K) (s1 s2 : FState)
+    (h1 : s1.length = c.inputModes) (h2 : s2.length = c.inputModes) (hne : photons s1 ≠ photons s2) :
+    simulate i c [s1.map fun k => Occ.int k, s2.map fun k => Occ.int k] none = .error .photonNumber :=
+  Proofs.C03.simulate_rejects_photon_mismatch i c s1 s2 h1 h2 hne
+
+/-- FOCK ISOMETRY: for a unitary `U` the squared amplitudes from one input to all outputs of the
+same photon number sum to one (`|amp|² = ampNum·star ampNum / ampNormSq`) -/
+theorem amplitudes_unit_vector [Field K] [StarRing K] [CharZero K] (U : M K) (hU : IsUnitary U)
+    (hN : 0 < U.n) (s : FState) (hs : s.length = U.n) :
+    ((fockBasis U.n (photons s)).map fun t =>
+        ampNum U s t * star (ampNum U s t) / ((ampNormSq s t : Nat) : K)).sum = 1 :=
+  Proofs.FockIso.amplitudes_unit_vector U hU hN s hs
 
 end LW.C03
